@@ -180,14 +180,19 @@ pub fn cases(tier: &str, seed: u64) -> Vec<Case> {
         let reps = if tier == "thorough" { 300 } else { 12 };
         for kind in 0..N_KINDS {
             // IPSECKEY has four gateway shapes, only one of which carries a name
-            for _ in 0..(if KIND_NAMES[kind] == "IPSECKEY" { reps * 8 } else { reps }) {
+            let n_reps = if KIND_NAMES[kind] == "IPSECKEY" { reps * 8 } else { reps };
+            for rep in 0..n_reps {
                 g.share = 7;
+                // the last two repetitions: every name inside the RDATA is the root name, once in place (a single
+                // zero octet: the shortest name there is) and once with whatever compression the encoder picks
+                g.root_only = rep + 2 >= n_reps;
                 let rd = g.rdata(kind);
+                g.root_only = false;
                 if matches!(rd, RData::OPT(_)) { continue; }
                 let first = ResourceRecord::new(g.name(), CLASS::IN, 1, RData::NS(NS(g.name())));
                 let rr = ResourceRecord::new(g.name(), CLASS::IN, 5, rd);
                 let ptxt = format!("P 7 32768 0 0 o0 0 2 {} {} 0 0", text::rr(&first), text::rr(&rr));
-                let (bytes, _) = refenc::encode_packet(&ptxt, Compress::Random(&mut r2, 7), false, None);
+                let (bytes, _) = if rep % 3 == 2 || rep + 2 == n_reps { refenc::encode_packet(&ptxt, Compress::Never, false, None) } else { refenc::encode_packet(&ptxt, Compress::Random(&mut r2, 7), false, None) };
                 let bb = bytes.clone();
                 watch(&format!("parse {}", text::hex(&bytes)));
                 let out = guard(move || match Packet::parse(&bb) { Ok(p) => format!("ok {}", text::packet(&p)), Err(_) => "err".to_string() });
